@@ -29,6 +29,7 @@ type Program struct {
 	Axioms    []*Axiom
 	Ifaces    map[string]*IfaceSpec // "(<iface>).<method>" -> spec function name
 	Globals   map[string]*GlobalFact
+	TypeInvs  map[string][]*TypeInv
 
 	// all packages reachable (for resolving external type names in lib specs)
 	AllTypes map[string]*types.Package
@@ -62,7 +63,7 @@ func loadProgram(repo string, libDir string) (*Program, error) {
 	P := &Program{Pkgs: pkgs, Prog: prog, SPkgs: spkgs,
 		Funcs: map[string]*ssa.Function{}, ByPath: map[string]*packages.Package{},
 		Contracts: map[string]*FuncContract{}, Specs: map[string]*SpecFunc{},
-		Ifaces: map[string]*IfaceSpec{}, Globals: map[string]*GlobalFact{},
+		Ifaces: map[string]*IfaceSpec{}, Globals: map[string]*GlobalFact{}, TypeInvs: map[string][]*TypeInv{},
 		AllTypes: map[string]*types.Package{}}
 	packages.Visit(pkgs, nil, func(p *packages.Package) {
 		P.ByPath[p.PkgPath] = p
